@@ -1,0 +1,119 @@
+//go:build verif
+
+package internal
+
+// Contracts for persistence (entry.go pentry/entry, store.go Recover/insertSimple; properties C11, C12) and
+// for the hybrid paths (processSecondary, DeleteWithSecondary; properties C14, C15).
+// The byte layer is ASSUMED (A-GOB): decoding yields an arbitrary value or an error.
+
+// ---- C11: entry <-> persisted entry -----------------------------------------------------------------------------
+
+// everything that is saved: key, value, cost, policy cost, deadline, flags
+func (e *Entry[K, V]) spec_pentry() (p *Pentry[K, V]) {
+	flag("holds_policy") // called by Persist with the policy lock and every shard read lock held
+	flag("holds_shardR")
+	ensures("fields", p != nil && p.Key == e.key && same(p.Value, e.value) && p.Weight == e.weight.Load() && p.PolicyWeight == e.policyWeight &&
+		p.Expire == e.expire.Load() && p.Flag.Flags == e.flag.Flags)
+	return
+}
+
+// ... and everything that is restored; the new entry is unlinked
+func (e *Pentry[K, V]) spec_entry() (en *Entry[K, V]) {
+	ensures("fields", en != nil && fresh(en) && en.key == e.Key && same(en.value, e.Value) && en.weight.Load() == e.Weight && en.policyWeight == e.PolicyWeight &&
+		en.expire.Load() == e.Expire && en.flag.Flags == e.Flag.Flags)
+	ensures("unlinked", en.meta.prev == nil && en.meta.next == nil && en.meta.wheelPrev == nil && en.meta.wheelNext == nil)
+	return
+}
+
+// round trip: restoring what was saved gives back key, value, cost, policy cost, deadline and flags
+func lemma_pentry_roundtrip[K comparable, V any](e *Entry[K, V], p *Pentry[K, V], en *Entry[K, V]) {
+	requires("saved", p.Key == e.key && same(p.Value, e.value) && p.Weight == e.weight.Load() && p.PolicyWeight == e.policyWeight && p.Expire == e.expire.Load() && p.Flag.Flags == e.flag.Flags)
+	requires("restored", en.key == p.Key && same(en.value, p.Value) && en.weight.Load() == p.Weight && en.policyWeight == p.PolicyWeight && en.expire.Load() == p.Expire && en.flag.Flags == p.Flag.Flags)
+	ensures("faithful", en.key == e.key && same(en.value, e.value) && en.weight.Load() == e.weight.Load() && en.policyWeight == e.policyWeight &&
+		en.expire.Load() == e.expire.Load() && en.flag.Flags == e.flag.Flags)
+}
+
+// restoring appends at the LRU end; C11 "leaves the new cache within capacity": an entry is appended to a
+// region only if the region still fits afterwards (probation, whose own capacity is 0 = dynamic, is bounded
+// through the main-region check in Recover and is not covered by this clause)
+func (l *List[K, V]) spec_PushBack(e *Entry[K, V]) {
+	flag("wheel_unchecked_links")
+	requires("fits_after", l.listType == WHEEL_LIST || l.capacity == 0 || l.len+e.policyWeight <= int64(l.capacity))
+}
+
+// ---- C12: block protocol of Recover ---------------------------------------------------------------------------------
+
+// ghost: a metadata block carrying the expected version has been seen in this Recover
+func gh_metaSeen() bool { panic("ghost") }
+
+// ghost: the hash computed by the most recent xxh3.Hash call of this goroutine
+func gh_lastHash() uint64 { panic("ghost") }
+
+// A-XXH3: the checksum function (trusted)
+func ext_xxh3_Hash(b []byte) (h uint64) {
+	set(gh_lastHash(), h)
+	ensures("recorded", gh_lastHash() == h)
+	return
+}
+
+// C12: a block's payload is interpreted (a reader over it is created) only after its checksum matched.
+// `block` is Recover's local variable (bound by name).
+func ext_bytes_NewReader(b []byte, block *DataBlock[any]) (r any) {
+	requires("checksum_verified", block.CheckSum == gh_lastHash())
+	return
+}
+
+// the clock origin is adopted from the stream exactly when the metadata block has passed the version check.
+// `m` and `version` are Recover's locals (bound by name): C12 "a stream saved under another version is
+// rejected before any entry is loaded"
+func ext_clock_Clock_SetStart(c any, ts int64, m *StoreMeta, version uint64) {
+	requires("version_checked", m.Version == version)
+	set(gh_metaSeen(), true)
+}
+
+// C12: an entry is inserted only after the metadata block (with the matching version) has been seen
+func (s *Store[K, V]) spec_insertSimple(entry *Entry[K, V]) {
+	flag("holds_policy")
+	requires("meta_seen", gh_metaSeen())
+	requires("entry", entry != nil)
+}
+
+func (s *Store[K, V]) spec_Recover(version uint64, reader any) (err error) {
+	flag("wheel_unchecked_links")
+	requires("wf", sp_wfStore(s) && s.policy.window != nil && s.policy.slru != nil && s.policy.slru.protected != nil && s.policy.slru.probation != nil && s.policy.sketch != nil && s.policy.slru.probation.capacity == 0)
+	requires("fresh_load", !gh_metaSeen())
+	return
+}
+
+// ---- C14 / C15: hybrid paths ----------------------------------------------------------------------------------------------
+
+// ghost: the secondary tier's copy of a key was written / deleted by this goroutine
+func gh_secWrites[K comparable](key K) real  { panic("ghost") }
+func gh_secDeletes[K comparable](key K) real { panic("ghost") }
+
+// A-SEC: the secondary cache is a partial map whose failing calls have no effect.
+// `item` is processSecondary's local (bound by name): C14: the value written must be the value of the entry
+// that is mapped to the key NOW (identity of the incarnation, as Shard.delete checks it)
+func ext_internal_SecondaryCache_Set[K comparable, V any](sc any, key K, value V, cost int64, expire int64, item SecondaryCacheItem[K, V]) (err error) {
+	requires("identity", has(item.shard.hashmap, key) && item.shard.hashmap[key] == item.entry)
+	requires("locked", heldShardR())
+	set(gh_secWrites(key), gh_secWrites(key)+1)
+	return
+}
+
+func ext_internal_SecondaryCache_Delete[K comparable](sc any, key K) (err error) {
+	set(gh_secDeletes(key), gh_secDeletes(key)+1)
+	return
+}
+
+func ext_internal_SecondaryCache_HandleAsyncError(sc any, err error) {}
+
+// C14: a Delete on a hybrid cache removes the key from memory and from the secondary tier in one critical
+// section of the shard write lock (so no concurrent promotion can resurrect it)
+func (s *Store[K, V]) spec_DeleteWithSecondary(key K) (err error) {
+	requires("wf", sp_wfStore(s))
+	ensures("absent", imp(!sp_home(s, key).closed, !has(sp_home(s, key).hashmap, key)))
+	ensures("tier_deleted", imp(old(has(sp_home(s, key).hashmap, key)) && !old(sp_home(s, key).closed) && s.secondaryCache != nil, gh_secDeletes(key) == old(gh_secDeletes(key))+1))
+	ensures("other_keys", sp_sameExcept(sp_home(s, key), key))
+	return
+}
